@@ -13,4 +13,5 @@ CONSTANTS
 INIT Init
 NEXT Next
 VIEW View
-INVARIANTS NonceUnique OnlyOnce CurrentAccepted OldKeyRejected RollsInStep NeverAhead PrioRestart
+INVARIANTS NeverAhead
+PROPERTIES NonceUniqueA OnlyOnceA CurrentAcceptedA OldKeyRejectedA RollsInStepA PrioRestartA
